@@ -731,4 +731,11 @@ theorem tie_tagNameDecisions (pos : Int) (n : Nat) (b : Bool) :
   | succ k =>
     simp [tagNameCond2]
 
+/-- the deprecated wrappers are the loaders. -/
+theorem tie_cLoadConfigJson : cLoadConfigJson =
+    ["return LoadFromJsonBytes(content, v)", "call LoadFromJsonBytes(content, v)"] := by rfl
+
+theorem tie_cLoadConfigYaml : cLoadConfigYaml =
+    ["return LoadFromYamlBytes(content, v)", "call LoadFromYamlBytes(content, v)"] := by rfl
+
 end GoZero.C17.Tie
